@@ -61,7 +61,7 @@ def run(chk: harness.Check):
     import c09
     sub = harness.Check("C09", chk.tier)
     c09.run(sub)
-    harness.fold(chk, sub, lambda r: "C08.D5-fit" if r.startswith("C09.") else r,
+    harness.fold(chk, sub, lambda r: "C08.D5-fit." + r.split(".", 1)[1] if r.startswith("C09.") else r,
                  keep=lambda r: r in ("C09.D5-fit-range", "C09.D3-errors-before-mutation", "C09.D4-designated", "C09.D8-value-unit-together", "anchor-missing"))
     if chk.tier == "thorough":
         import thorough
